@@ -1,6 +1,270 @@
-//! C14 — not built yet.
+//! C14 — channel monitors depend only on the current best chain; add-then-remove restores the
+//! view; a reorganisation never aborts the signer.
+//!
+//! Real `Node` + channel (real keys), the channel's real `ChainMonitor` registered in the node's real
+//! `ChainTracker`; blocks are real `Block`s (mined with `make_block`) delivered compact
+//! (`TxoProof::prove_unchecked`) or streamed (`block_chunk` + `ProofType::ExternalBlock`).
+//! Transactions: funding, double-spend of a funding input, mutual close, holder commitment with
+//! our output and two offered HTLCs (built with the channel's keys through the repo's
+//! `channel_commitment`), sweep of our output, HTLC spends, second-level spends, unrelated spends.
+//! Model: `monitor` (Lean `Listener.add/remove`).  Monitor: after every step the Debug/serde view
+//! of the monitor `State` + `ListenSlot` is compared with a *fresh replay* of the surviving chain.
+#[path = "c14_world.rs"]
+pub mod world;
 use crate::common::*;
+use world::*;
+
+pub struct C14;
+
+/// which pool transactions are on the chain, in block order
+#[derive(Default, Clone)]
+struct Plan {
+    blocks: Vec<Vec<u64>>,
+}
+
+impl Plan {
+    fn confirmed(&self) -> Vec<u64> {
+        self.blocks.iter().flatten().cloned().collect()
+    }
+}
+
+/// pool ids whose dependencies are confirmed (or earlier in the current block) and that conflict with nothing
+fn available(confirmed: &[u64], n_extra: u64) -> Vec<u64> {
+    let has = |x: u64| confirmed.contains(&x);
+    let mut v = Vec::new();
+    let mut push = |id: u64, ok: bool| {
+        if ok && !has(id) {
+            v.push(id)
+        }
+    };
+    push(F, !has(D));
+    push(D, !has(F));
+    push(M, has(F) && !has(U));
+    push(U, has(F) && !has(M));
+    push(S, has(U));
+    push(T1, has(U) && !has(T12));
+    push(T2, has(U) && !has(T12));
+    push(T12, has(U) && !has(T1) && !has(T2));
+    push(V1, has(T1));
+    push(V2, has(T2));
+    push(V12A, has(T12));
+    push(V12B, has(T12));
+    for i in 0..n_extra {
+        push(X0 + i, true);
+    }
+    v
+}
+
+fn gen_block(rng: &mut Rng, plan: &Plan, aggressive: bool) -> Vec<u64> {
+    let mut confirmed = plan.confirmed();
+    let mut blk = Vec::new();
+    let n = match rng.below(10) {
+        0 | 1 => 0,
+        2 | 3 | 4 => 1,
+        5 | 6 => 2,
+        7 | 8 => 3,
+        _ => 5,
+    };
+    for _ in 0..n {
+        let av = available(&confirmed, 3);
+        if av.is_empty() {
+            break;
+        }
+        // prefer channel-relevant transactions
+        let rel: Vec<u64> = av.iter().cloned().filter(|x| *x < X0).collect();
+        let pick = if !rel.is_empty() && (aggressive || rng.chance(3, 4)) { *rng.pick(&rel) } else { *rng.pick(&av) };
+        blk.push(pick);
+        confirmed.push(pick);
+    }
+    blk
+}
+
+fn line(dir: &str, delivery: &str, blk: &[u64]) -> String {
+    let mut s = format!("{} {}", dir, delivery);
+    for id in blk {
+        s.push(' ');
+        s.push_str(&tok(*id));
+    }
+    s
+}
+
+impl Group for C14 {
+    fn property(&self) -> &'static str { "C14" }
+    fn model(&self) -> Option<&'static str> { Some("monitor") }
+    fn rule(&self) -> &'static str {
+        "consensus-valid block histories over the pool {funding, double-spend, mutual close, holder commitment with \
+         our output + 2 HTLCs, sweep, HTLC spends (separate or one tx), second-level spends, unrelated} in random \
+         groupings (0-5 txs per block, incl. funding+close and close+sweep+HTLC in one block), compact and streamed \
+         adds, reorgs of depth 1-6 followed by alternative blocks; non-trivial = at least one reorg that disconnects \
+         a block with a monitor-relevant transaction"
+    }
+    fn budget(&self, tier: Tier) -> usize { if tier == Tier::Quick { 300 } else { 4000 } }
+    fn corpus(&self) -> Vec<Vec<String>> {
+        let mk = |steps: &[(&str, &str, &[u64])]| -> Vec<String> {
+            let mut v = vec![init_line()];
+            for (d, c, b) in steps { v.push(line(d, c, b)); }
+            v
+        };
+        vec![
+            // F7 witness: close + sweep in one block, then disconnect it
+            mk(&[("add", "c", &[F]), ("add", "c", &[U, S]), ("remove", "c", &[U, S])]),
+            // funding + mutual close in one block, streamed, then reorg of depth 2
+            mk(&[("add", "s", &[F, M]), ("add", "c", &[]), ("remove", "c", &[]), ("remove", "c", &[F, M]), ("add", "c", &[D])]),
+            // HTLC spend and second-level spend, disconnected one by one
+            mk(&[("add", "c", &[F]), ("add", "c", &[U]), ("add", "c", &[T1]), ("add", "c", &[V1]),
+                 ("remove", "c", &[V1]), ("remove", "c", &[T1]), ("add", "c", &[T1, V1]), ("remove", "c", &[T1, V1])]),
+            // everything in one block
+            mk(&[("add", "c", &[F, U, S, T12, V12A, V12B]), ("remove", "c", &[F, U, S, T12, V12A, V12B]), ("add", "c", &[D])]),
+        ]
+    }
+    fn gen_case(&self, rng: &mut Rng, tier: Tier) -> Vec<String> {
+        let mut ops = vec![init_line()];
+        let mut plan = Plan::default();
+        let steps = rng.range(3, if tier == Tier::Quick { 9 } else { 16 });
+        let aggressive = rng.chance(2, 3);
+        for _ in 0..steps {
+            let do_reorg = !plan.blocks.is_empty() && rng.chance(1, 3);
+            if do_reorg {
+                let depth = rng.range(1, (plan.blocks.len() as u64).min(6));
+                for _ in 0..depth {
+                    let blk = plan.blocks.pop().unwrap();
+                    ops.push(line("remove", "c", &blk));
+                }
+                let readd = rng.range(0, depth + 1);
+                for _ in 0..readd {
+                    let blk = gen_block(rng, &plan, aggressive);
+                    ops.push(line("add", if rng.chance(1, 3) { "s" } else { "c" }, &blk));
+                    plan.blocks.push(blk);
+                }
+            } else {
+                let blk = gen_block(rng, &plan, aggressive);
+                ops.push(line("add", if rng.chance(1, 3) { "s" } else { "c" }, &blk));
+                plan.blocks.push(blk);
+            }
+        }
+        ops
+    }
+    fn exec_case(&self, ops: &[String]) -> CaseOut {
+        let mut co = CaseOut::default();
+        let mut w: Option<World> = None;
+        let mut chain: Vec<Vec<u64>> = Vec::new(); // surviving chain (pool ids per block)
+        let mut dead = false;
+        let mut relevant_reorg = false;
+        let mut htlc_reorg_seen = false; // a block with an HTLC / second-level spend was disconnected earlier in this case
+        for (i, op) in ops.iter().enumerate() {
+            let t: Vec<&str> = op.split_whitespace().collect();
+            if dead {
+                co.out.push("dead".into());
+                continue;
+            }
+            let l = match t.as_slice() {
+                ["init", ..] => {
+                    let nw = World::new();
+                    let d = nw.digest();
+                    w = Some(nw);
+                    chain.clear();
+                    format!("ok {}", d)
+                }
+                [dir @ ("add" | "remove"), delivery, rest @ ..] => {
+                    let wd = w.as_mut().expect("init first");
+                    let ids: Vec<u64> = rest.iter().map(|tk| parse_token_id(tk)).collect();
+                    let streamed = *delivery == "s";
+                    let r = if *dir == "add" { wd.add_block(&ids, streamed) } else { wd.remove_block(&ids) };
+                    match r {
+                        StepResult::Panic(msg) => {
+                            dead = true;
+                            co.tags.insert(format!("{}:panic", dir));
+                            co.violations.push(Violation {
+                                kind: if *dir == "remove" { "reorg-abort".into() } else { "add-abort".into() },
+                                desc: format!("{} of a consensus-valid block panicked inside the implementation: {}", dir, msg),
+                                at: i,
+                            });
+                            "panic".to_string()
+                        }
+                        StepResult::Err(e) => {
+                            co.tags.insert(format!("{}:err", dir));
+                            co.violations.push(Violation {
+                                kind: "valid-block-rejected".into(),
+                                desc: format!("{} of a valid block with a correct proof was rejected: {}", dir, e),
+                                at: i,
+                            });
+                            format!("err {}", wd.digest())
+                        }
+                        StepResult::Ok => {
+                            if *dir == "add" {
+                                chain.push(ids.clone());
+                                co.tags.insert(format!("add:{}", if streamed { "streamed" } else { "compact" }));
+                                if ids.contains(&U) && ids.contains(&S) { co.tags.insert("close+sweep-one-block".into()); }
+                                if ids.contains(&F) && (ids.contains(&U) || ids.contains(&M)) { co.tags.insert("funding+close-one-block".into()); }
+                            } else {
+                                chain.pop();
+                                co.tags.insert("remove".into());
+                                if ids.iter().any(|x| *x < X0) {
+                                    relevant_reorg = true;
+                                    co.tags.insert("remove:relevant".into());
+                                }
+                                for (id, tag) in [(F, "funding"), (D, "doublespend"), (M, "mutual"), (U, "unilateral"), (S, "sweep"),
+                                                  (T1, "htlc"), (T2, "htlc"), (T12, "htlc"), (V1, "second-level"), (V2, "second-level"),
+                                                  (V12A, "second-level"), (V12B, "second-level")] {
+                                    if ids.contains(&id) { co.tags.insert(format!("reorg-of:{}", tag)); }
+                                }
+                            }
+                            if *dir == "remove" && ids.iter().any(|x| [T1, T2, T12, V1, V2, V12A, V12B].contains(x)) {
+                                htlc_reorg_seen = true;
+                            }
+                            // property monitor: view == fresh replay of the surviving chain
+                            let view = strip_sb(&wd.digest());
+                            let fresh = {
+                                let mut f = World::new();
+                                let mut ok = true;
+                                for b in &chain {
+                                    if !matches!(f.add_block(b, false), StepResult::Ok) { ok = false; break; }
+                                }
+                                if ok { strip_sb(&f.digest()) } else { "replay-failed".into() }
+                            };
+                            if view != fresh {
+                                let (sv, wv) = split_watches(&view);
+                                let (sf, wf) = split_watches(&fresh);
+                                let kind = if sv == sf && wv != wf && htlc_reorg_seen {
+                                    "htlc-reorg-watches-not-restored"
+                                } else if sv == sf {
+                                    "watches-differ-from-replay"
+                                } else {
+                                    "view-differs-from-replay"
+                                };
+                                co.tags.insert(format!("violation:{}", kind));
+                                co.violations.push(Violation {
+                                    kind: kind.into(),
+                                    desc: format!("after {} the monitor view is [{}] but a fresh replay of the surviving chain gives [{}]", op, view, fresh),
+                                    at: i,
+                                });
+                            }
+                            if *dir == "add" { format!("ok {} hyp=1", wd.digest()) } else { format!("ok {}", wd.digest()) }
+                        }
+                    }
+                }
+                _ => "bad-op".to_string(),
+            };
+            co.out.push(l);
+        }
+        co.nontrivial = relevant_reorg;
+        co
+    }
+}
+
+fn strip_sb(d: &str) -> String {
+    d.split(' ').filter(|t| !t.starts_with("sb=")).collect::<Vec<_>>().join(" ")
+}
+
+/// (state part, watches part)
+fn split_watches(d: &str) -> (String, String) {
+    let (mut a, mut b) = (Vec::new(), Vec::new());
+    for t in d.split(' ') {
+        if t.starts_with("w=") || t.starts_with("seen=") { b.push(t) } else { a.push(t) }
+    }
+    (a.join(" "), b.join(" "))
+}
 
 pub fn groups() -> Vec<Box<dyn Group>> {
-    vec![]
+    vec![Box::new(C14)]
 }
